@@ -18,13 +18,14 @@ EXTENDS ParamsLib, TLC, Emit
 
 CONSTANTS Universe,   \* sequence over parameters of the set of value ids each may take, e.g. <<{1,2,3},{1,2}>>
           MaxLen,     \* sequence over parameters: maximal length of a value list
-          Mode        \* "lookup" | "combine"
+          Mode        \* "lookup" | "combine" | "combine3"
 
 VARIABLES case
 vars == <<case>>
 
 NP == Len(Universe)
-Grids == IF NP = 1 THEN {<<a>> : a \in ValueLists(Universe[1], MaxLen[1])}
+Grids == IF NP = 0 THEN {<<>>}           \* nothing is unpacked: one variation
+         ELSE IF NP = 1 THEN {<<a>> : a \in ValueLists(Universe[1], MaxLen[1])}
          ELSE IF NP = 2 THEN {<<a, b>> : a \in ValueLists(Universe[1], MaxLen[1]), b \in ValueLists(Universe[2], MaxLen[2])}
          ELSE {<<a, b, c>> : a \in ValueLists(Universe[1], MaxLen[1]), b \in ValueLists(Universe[2], MaxLen[2]),
                              c \in ValueLists(Universe[3], MaxLen[3])}
@@ -35,17 +36,23 @@ Init == case = [kind |-> "none"]
 PickLookup == \E g \in Grids : \E fx \in FixChoices(g) :
                  case' = [kind |-> "lookup", g |-> g, fx |-> fx, n |-> NumVar(g), combos |-> Combos(g),
                           idx |-> AscSeq(Lookup(g, fx))]
-PickCombine == \E ga \in Grids, gb \in Grids :
-                 case' = [kind |-> "combine", ga |-> ga, gb |-> gb, u |-> Union(ga, gb), exp |-> CombineExp(ga, gb)]
+\* nobs: observations held by every operand result (1 or 2); acc: the operands accumulate their observations
+PickCombine == \E ga \in Grids, gb \in Grids, nobs \in 1..2, acc \in BOOLEAN :
+                 case' = [kind |-> "combine", ga |-> ga, gb |-> gb, u |-> Union(ga, gb), exp |-> CombineExp(ga, gb),
+                          nobs |-> nobs, acc |-> acc]
+PickCombine3 == \E ga \in Grids, gb \in Grids, gc \in Grids :
+                 case' = [kind |-> "combine3", ga |-> ga, gb |-> gb, gc |-> gc, u |-> Union(Union(ga, gb), gc),
+                          exp |-> CombineExp3(ga, gb, gc), nobs |-> 1 + (Len(ga[1]) % 2), acc |-> (Len(gb[1]) % 2 = 0)]
 Next == /\ case.kind = "none"
-        /\ IF Mode = "lookup" THEN PickLookup ELSE PickCombine
+        /\ IF Mode = "lookup" THEN PickLookup ELSE IF Mode = "combine3" THEN PickCombine3 ELSE PickCombine
 
 LawsLookup == case.kind = "lookup" =>
                 /\ RowMajor(case.g) /\ AllDistinct(case.g)
                 /\ Len(case.idx) = NumVar(case.g) \div
                      (LET RECURSIVE F(_) F(p) == IF p = 0 THEN 1 ELSE (IF case.fx[p] = 0 THEN 1 ELSE Len(case.g[p])) * F(p - 1)
                       IN F(Len(case.g)))
-LawsCombine == case.kind = "combine" => CombineLaw(case.ga, case.gb) /\ RowMajor(case.u)
+LawsCombine == /\ case.kind = "combine" => CombineLaw(case.ga, case.gb) /\ RowMajor(case.u)
+               /\ case.kind = "combine3" => CombineLaw3(case.ga, case.gb, case.gc) /\ RowMajor(case.u)
 
 Emit == case'.kind = "none" \/ EmitCase(case')
 =============================================================================
